@@ -330,6 +330,8 @@ def param_directed():
     mods.append(mk("PaRecursive", "  P {T} ::= SEQUENCE { a T, next P {T} OPTIONAL }\n  Use ::= SEQUENCE { s0 P {INTEGER (0..7)}, s1 P {BOOLEAN} }\n", "param"))
     mods.append(mk("PaChoiceTwo", "  P {T, U} ::= CHOICE { a T, b U, c SEQUENCE OF T }\n  A ::= P {INTEGER, BOOLEAN}\n  B ::= P {OCTET STRING (SIZE(4)), BOOLEAN}\n"
                    "  C ::= SET OF P {BOOLEAN, INTEGER (0..7)}\n", "param"))
+    # a known defect reached through a template (C10-of-unsigned-element: OF element needing unsigned INTEGER specifics)
+    mods.append(mk("PaOfUnsigned", "  P {T} ::= SEQUENCE OF T\n  Use ::= SEQUENCE { s0 P {INTEGER (0..MAX)}, s1 P {INTEGER (0..4294967295)}, s2 P {INTEGER (0..7)} }\n", "param"))
     mods.append(mk("PaUnusedParam", "  P {T, U} ::= SEQUENCE { a T }\n  Use ::= SEQUENCE { s0 P {INTEGER, BOOLEAN}, s1 P {INTEGER, IA5String (SIZE(1..8))} }\n", "param"))
     mods.append(mk("PaUnusedTemplate", "  P {T} ::= SEQUENCE { a T }\n  Q {INTEGER:n} ::= INTEGER (0..n)\n  A ::= INTEGER\n", "param"))
     mods.append(mk("PaConstrainedUse", SUPPORT + "  P {T} ::= SEQUENCE OF T\n  Q {T} ::= T\n  Use ::= SEQUENCE { s0 P {INTEGER} (SIZE(1..4)), s1 Q {INTEGER} (0..7), s2 P {Str} (SIZE(2)) }\n", "param"))
